@@ -192,6 +192,9 @@ func (d *Decoder) readTypedMap() (interface{}, error) {
 			return nil, errUnfinishedList
 		}
 		if mType.Kind() == reflect.Map {
+			if d.unfinishedMap(value, mType.Elem()) {
+				return nil, errUnfinishedMap
+			}
 			k, err := convertValue(EnsureRawValue(key), mType.Key())
 			if err != nil {
 				return nil, err
@@ -266,6 +269,9 @@ func (d *Decoder) readMap(dest reflect.Value, tag byte) error {
 			SetValue(dest, cv)
 			return nil
 		}
+		if d.unfinishedMap(r, UnpackPtrType(dest.Type())) {
+			return errUnfinishedMap
+		}
 		SetValue(dest, r)
 		return nil
 	case _mapTypedTag:
@@ -301,6 +307,9 @@ func (d *Decoder) readMap(dest reflect.Value, tag byte) error {
 		}
 		if h := holderOf(vl); h != nil && !h.complete {
 			return errUnfinishedList
+		}
+		if d.unfinishedMap(vl, mapTyp.Elem()) {
+			return errUnfinishedMap
 		}
 		k, err := convertValue(EnsureRawValue(key), mapTyp.Key())
 		if err != nil {
